@@ -65,6 +65,8 @@ class Recorder:
         self.stop_reason = None
         self.nsamples = 0
         self.sample_calls = {}
+        self.sample_writes = {}
+        self.pre_ts = {}
         self.levels = None
         self.sample_first = {}
         self.end_time = None
@@ -174,7 +176,7 @@ class Recorder:
                      vel=[[list(map(float.hex, k)), v] for k, v in self.vel_ids.items()],
                      charge=list(self.charge_ids.items()),
                      hid_time={str(h): [float(t.quotient).hex(), float(t.remainder).hex()] for h, t in self.hid_time.items()},
-                     sample_calls=self.sample_calls, sample_first={str(k): [v.numerator, v.denominator] for k, v in self.sample_first.items()},
+                     sample_calls=self.sample_calls, sample_writes=self.sample_writes, sample_first={str(k): [v.numerator, v.denominator] for k, v in self.sample_first.items()},
                      speed=[self.speed.numerator, self.speed.denominator] if self.speed else None,
                      legs=self.legs, seq=self.seq, ndumps=self.ndumps, end_time=self.end_time)
         json.dump(state, open(dst + ".rec.json", "w"))
@@ -189,6 +191,7 @@ class Recorder:
         self.hid_time = {int(h): Time(float.fromhex(q), float.fromhex(r)) for h, (q, r) in st["hid_time"].items()}
         self.sample_calls = {int(k): v for k, v in st["sample_calls"].items()}
         self.sample_first = {int(k): Fraction(a, b) for k, (a, b) in st["sample_first"].items()}
+        self.sample_writes = {int(k): v for k, v in st.get("sample_writes", {}).items()}
         self.speed = Fraction(*st["speed"]) if st["speed"] else None
         self.legs, self.seq, self.ndumps, self.end_time = st["legs"], st["seq"], st["ndumps"], st["end_time"]
         self.resumed = True
@@ -541,6 +544,12 @@ def install(recorder):
             r = REC
             hid = r.hid(self)
             instate = r.states(args[0]) if args and args[0] is not None else []
+            pre_ts = {}
+            if args and args[0] is not None:
+                for n in r.walk(args[0]):
+                    if n.value.time_stamp is not None:
+                        pre_ts[tuple(n.value.identifier)] = (n.value.time_stamp.quotient, n.value.time_stamp.remainder)
+            r.pre_ts = pre_ts
             outer, r.ctx = r.ctx, []
             outer_stream, r.cur_stream = r.cur_stream, r.stream_of(hid)
             try:
@@ -609,7 +618,16 @@ def install(recorder):
             dump = 0
             if kind == "dump":
                 dump = r.save_dump_copy(self._output_handlers_dictionary[output_handler])
-            r.emit("write", handler=output_handler, kind=kind, hid=hid, state=state, dump=dump, **r.drain_descs())
+            j, wres = 0, 0
+            if kind == "state" and h is not None and type(h).__name__ == "FixedIntervalSamplingEventHandler" and hid in r.sample_first:
+                j = r.sample_writes[hid] = r.sample_writes.get(hid, 0) + 1
+                delta = Fraction(h._sampling_interval)
+                base = Fraction(0) if r.sample_first[hid] < delta / 2 else delta
+                t = r.hid_time.get(hid)
+                if t is not None:
+                    diff = abs(Fraction(t.quotient) + Fraction(t.remainder) - (base + (j - 1) * delta))
+                    wres = min(10 ** 9, int(math.ceil(diff * 2 ** 53)))
+            r.emit("write", handler=output_handler, kind=kind, hid=hid, state=state, dump=dump, j=j, wres=wres, **r.drain_descs())
             return ret
         return write
     wrap(InputOutputHandler, "write", mk_write)
@@ -778,7 +796,18 @@ def install(recorder):
                     # time displacement = draw / (total * speed): residual of (t - time stamp before slicing) is not
                     # observable after slicing; log the identity on the returned time instead
                     prop = ex[-1][2] / (total * speed)
+                propres = 0
+                ident = tuple(handler._active_leaf_unit.identifier)
+                if ex and ident in REC.pre_ts:
+                    q0, r0 = REC.pre_ts[ident]
+                    dt = (Fraction(t.quotient) - Fraction(q0)) + (Fraction(t.remainder) - Fraction(r0))
+                    want = Fraction(ex[-1][2]) / (Fraction(total) * Fraction(speed))
+                    if want > 0:
+                        # one rounding of the remainder sum (absolute 2^-52) plus the rounding of the quotient draw/(rate*speed)
+                        tol = Fraction(1, 2 ** 52) + want / 2 ** 48
+                        propres = min(10 ** 9, int(math.ceil(abs(dt - want) / tol)))
                 sub["cellveto"] = dict(sys=REC.hid_cellsys[hid], activeCell=idx[act[0][0]], rel=idx[rel], target=idx[target],
+                                       propres=propres,
                                        walker=which, signpos=int(cf > 0.0), direction=direction,
                                        rate=fkey(handler._bounding_event_rate), rateref=fkey(ref),
                                        positive=int(handler._bounding_event_rate > 0.0))
